@@ -6,11 +6,14 @@ RULE = ('enumerated: a rejection / crash / nothing at every position of every ch
         'rejecting validator at every position of a chain of 1-2 raising a ValidatorException that ALREADY carries a parameter_name - set by the '
         'validator itself, by Validator.validate_param(value, parameter_name=...) of one delegating (composite) validator around it, of two nested ones, '
         'or both - equal to ANOTHER declared Parameter of the same function, to its own Parameter, to an undeclared name or to \'\' x arrival route x mode; '
-        'the required / None / default cascade of one '
+        'the NAME of a parameter: def f(a, <name>) / def f(<name>, a) for ~50 names (single letters, every proper substring of self, superstrings of it, '
+        'substrings / superstrings of cls / args / kwargs, the library\'s own keywords and locals: value, key, name, validators, default, required, parameter, '
+        'result, k, v, func, strict, ...) x a Parameter declared for it or not x arrival route (positional, keyword, mixed, positional in a *args function with a '
+        'surplus positional) x strict x mode; the required / None / default cascade of one '
         'parameter in every combination (required x Parameter default x signature default x call x external source x mode x strict); surplus '
         'arguments (unknown keyword, extra positional, undeclared signature parameter, Parameter outside the signature) x strict x mode x '
         'method x async.  Plus seeded structured programs: 1-4 named parameters (+-self as real methods, sync/async, +-defaults, keyword-only, '
-        '*args), shuffled declarations (plain / EnvironmentVariableParameter set or unset / harness-defined ExternalParameter; default NoValue, '
+        '*args; in 40 % of the programs some parameters carry a name of that pool), shuffled declarations (plain / EnvironmentVariableParameter set or unset / harness-defined ExternalParameter; default NoValue, '
         'value, None, falsy; required or not; value_type in None,int,float,bool,str,list,dict; chains of 0-3 recording validators that map, '
         'return None, return a falsy constant, reject or crash, ~30 % of them with a pre-set / delegated foreign parameter_name on their exception; '
         'duplicate and out-of-signature declarations as near misses), strict, '
@@ -34,7 +37,7 @@ TRUSTED = ['Python call binding (positional / keyword / defaults / *args) is mod
 
 
 def cases(rng, tier):
-    out = V.gate_enum(rng) + V.naming_enum(rng) + V.one_param_cascade(rng) + V.surplus_enum(rng) + V.varpos_enum(rng) + V.reentrant_enum(rng)
+    out = V.gate_enum(rng) + V.naming_enum(rng) + V.names_enum(rng) + V.one_param_cascade(rng) + V.surplus_enum(rng) + V.varpos_enum(rng) + V.reentrant_enum(rng)
     out += V.random_cases(rng, 44000 if tier == 'quick' else 240000, allow_varargs=True)
     out += V.scenario_cases(rng, 3000 if tier == 'quick' else 20000, allow_varargs=True)
     out += V.flask_cases(rng, 4000 if tier == 'quick' else 30000)
